@@ -581,16 +581,6 @@ def i_RJMP(i, fmap):
 
 
 @__pc
-def i_EICALL(i, fmap):
-    raise NotImplementedError
-
-
-@__pc
-def i_EIJMP(i, fmap):
-    raise NotImplementedError
-
-
-@__pc
 def i_ICALL(i, fmap):
     _push_(fmap, fmap(pc))
     fmap[pc] = fmap(Z)
@@ -599,3 +589,9 @@ def i_ICALL(i, fmap):
 @__pc
 def i_IJMP(i, fmap):
     fmap[pc] = fmap(Z)
+
+
+# extended indirect call/jump to EIND:Z. With the 16-bit program counter
+# modelled here the EIND bits are beyond the PC: the target is Z.
+i_EICALL = i_ICALL
+i_EIJMP = i_IJMP
